@@ -140,6 +140,8 @@ fn plan_inner(id: &str, tier: &str, seed: u64, round: u64) -> Plan {
                     }
                     // print-side attributes must not disturb the parser
                     c.allow_transparent = i % 4 == 1;
+                    // a case-sensitive / case-insensitive pair differing only in case (inputs matching both are skipped)
+                    c.mixed_case_overlap = i % 8 == 2;
                     gen::gen_string(&mut rg, &c)
                 })
                 .collect();
@@ -385,6 +387,7 @@ fn plan_inner(id: &str, tier: &str, seed: u64, round: u64) -> Plan {
                 .map(|i| {
                     let mut c = cfg.clone();
                     c.parse_err = Some(i % 3 != 2);
+                    c.mixed_case_overlap = i % 5 != 1 && i % 4 == 0;
                     if i % 5 == 1 {
                         // through the phf map: the error function still runs only for rejected inputs
                         c.allow_fields = false;
@@ -428,7 +431,16 @@ fn plan_inner(id: &str, tier: &str, seed: u64, round: u64) -> Plan {
                     }
                 }
             }
-            let extra = if thorough { 640 } else { 258 };
+            // cursor widths: exactly as many variants as a byte can count, one fewer, a few more
+            if round == 0 {
+                for (n, m) in [(256usize, 0u32), (255, 0), (260, 0b1010)] {
+                    let mut c = base.clone();
+                    c.mask = Some((n, m));
+                    c.fieldless = true;
+                    specs.push(gen::gen_iter(&mut rg, &c));
+                }
+            }
+            let extra = if thorough { 640 } else { 255 };
             for k in 0..extra {
                 let mut b = base.clone();
                 if k % 40 == 7 {
@@ -576,6 +588,11 @@ fn plan_inner(id: &str, tier: &str, seed: u64, round: u64) -> Plan {
         "C13" => {
             let n = if thorough { 640 } else { 384 };
             let mut specs: Vec<EnumSpec> = (0..n).map(|_| gen::gen_shape(&mut rg)).collect();
+            // more variants than a byte can number
+            if round == 0 {
+                let at = specs.len() - 1;
+                specs[at] = gen::gen_shape_large(&mut rg, 300);
+            }
             name_specs(&mut specs, round);
             Plan {
                 specs,
